@@ -1276,28 +1276,25 @@ def c25_unpack(R):
     # handled in helpers of their own or in the arms of the dispatcher
     un = tree.func_inlined(BAL, "Balancer._unpack_truisms")
     top = util.value_arms(un, "c.op")
-    arms = {}
-    for st in ast.walk(un):
-        if isinstance(st, ast.If) and st.body and isinstance(st.body[0], ast.Return) and st.body[0].value is not None:
-            arms[ast.unparse(st.test)] = st.body[0].value
-        if isinstance(st, ast.IfExp):  # the same chain written (or inlined) as a conditional expression
-            arms.setdefault(ast.unparse(st.test), st.body)
-    R.check(
-        arms.get("c.args[0].op == 'And'") is not None and util.alpha_eq(arms["c.args[0].op == 'And'"], "Balancer._unpack_truisms(claripy.Or(*[claripy.Not(a) for a in c.args[0].args]))", un),
-        m,
-        un,
-        "Not(And(..)) -> Or of negations",
-        f"Not(And) is unpacked as `{norm(arms[chr(99) + '.args[0].op == ' + repr('And')]) if arms.get(chr(99) + '.args[0].op == ' + repr('And')) is not None else None}`",
-        construct="_unpack_truisms_not And",
-    )
-    R.check(
-        arms.get("c.args[0].op == 'Or'") is not None and util.alpha_eq(arms["c.args[0].op == 'Or'"], "Balancer._unpack_truisms(claripy.And(*[claripy.Not(a) for a in c.args[0].args]))", un),
-        m,
-        un,
-        "Not(Or(..)) -> And of negations",
-        "Not(Or) is no longer unpacked as the And of the negations",
-        construct="_unpack_truisms_not Or",
-    )
+    # what the dispatcher does for Not(And(..)) / Not(Or(..)): the function specialised to that input, whether the
+    # choice is an if-chain, match/case, a conditional expression or a dispatch dictionary
+    def _not_arm(op):
+        sp = util.specialise(un, {"c.op": "Not", "c.args[0].op": op})
+        # straight-line code that ends in the return (bindings of propagated locals may be left over)
+        *pre, last = sp.body
+        plain = all(isinstance(st, ast.Assign) or (isinstance(st, ast.Expr) and isinstance(st.value, ast.Constant)) for st in pre)
+        return last.value if isinstance(last, ast.Return) and plain else None
+
+    for op, dual in (("And", "Or"), ("Or", "And")):
+        v = _not_arm(op)
+        R.check(
+            v is not None and util.alpha_eq(v, f"Balancer._unpack_truisms(claripy.{dual}(*[claripy.Not(a) for a in c.args[0].args]))", un),
+            m,
+            un,
+            f"Not({op}(..)) -> {dual} of negations",
+            f"Not({op}) is unpacked as `{norm(v) if v is not None else None}`, no longer as the {dual} of the negations",
+            construct=f"_unpack_truisms_not {op}",
+        )
     FO = util.Frags(un)
     FO2 = util.Frags(un)
     R.check(
